@@ -12,10 +12,17 @@ import numpy as onp
 
 from vlib.common import loguniform, haar_so3
 
-KINDS = ["walk", "ramp", "jump", "cyclic", "uniaxial", "tiny"]
+KINDS = ["walk", "ramp", "jump", "cyclic", "uniaxial", "tiny", "large_jump", "large_ramp", "large_shear"]
+LARGE_KINDS = ["large_jump", "large_ramp", "large_shear"]
 
 
-def random_constants(rng, nbranch):
+def random_constants(rng, nbranch, wide=False):
+    """wide: absolute stiffness scale over 15 decades and relaxation times over 8 (absolute floors on moduli / times)."""
+    if wide:
+        G = float(loguniform(rng, 1e-6, 1e9))
+        return {"K": float(G * loguniform(rng, 0.7, 1e4)), "G": G,
+                "Gn": [float(G * loguniform(rng, 1e-2, 1e2)) for _ in range(nbranch)],
+                "tau": [float(loguniform(rng, 1e-4, 1e4)) for _ in range(nbranch)]}
     G = float(loguniform(rng, 1e-2, 1e2))
     return {"K": float(G * loguniform(rng, 0.7, 1e4)), "G": G,
             "Gn": [float(G * loguniform(rng, 1e-2, 1e2)) for _ in range(nbranch)],
@@ -58,14 +65,73 @@ def _dt(rng, taus):
     return float(10.0 ** rng.uniform(lo, hi))
 
 
+def _rodrigues(axis, th):
+    a = onp.asarray(axis, dtype=float)
+    a = a / onp.linalg.norm(a)
+    Kx = onp.array([[0, -a[2], a[1]], [a[2], 0, -a[0]], [-a[1], a[0], 0]])
+    return onp.eye(3) + math.sin(th) * Kx + (1 - math.cos(th)) * (Kx @ Kx)
+
+
+def _large_history(rng, kind, form, taus, nload):
+    """Large-deformation loading: principal stretches between ~0.1 and ~10 (log stretch up to +-2.3) in an arbitrary
+    principal frame with a large superposed rotation, or simple shear gamma up to 5; taken in one jump or as a ramp
+    (proportional in the logarithmic strain).  det F stays in [0.5, 2], cond F <= ~100."""
+    plane = form == "plane"
+    axis = onp.array([0.0, 0.0, 1.0]) if plane else rng.standard_normal(3)
+    theta = float(rng.choice([0.0, rng.uniform(0, math.pi), rng.uniform(0, math.pi)]))
+    if plane:
+        Q = _rodrigues([0, 0, 1.0], rng.uniform(0, 2 * math.pi))
+    else:
+        Q = haar_so3(rng)
+    out = []
+    if kind == "large_shear":
+        gam = float(loguniform(rng, 0.5, 5.0)) * float(rng.choice([-1.0, 1.0]))
+
+        def Fof(sv):
+            S = onp.eye(3)
+            S[0, 1] = sv * gam
+            return _rodrigues(axis, sv * theta) @ Q @ S @ Q.T
+        jump = rng.random() < 0.4
+    else:
+        lmax = float(rng.uniform(0.8, 2.3))
+        sub = str(rng.choice(["uniaxial", "biaxial", "general", "general"]))
+        if sub == "uniaxial":
+            l = onp.array([1.0, -0.5, -0.5])
+        elif sub == "biaxial":
+            l = onp.array([0.5, 0.5, -1.0])
+        else:
+            l = rng.uniform(-1, 1, 3)
+            l = l - onp.mean(l)
+        if plane:
+            l = onp.array([l[0], -l[0] if rng.random() < 0.5 else l[1], 0.0])
+        l = l * float(rng.choice([-1.0, 1.0])) * lmax / onp.max(onp.abs(l))
+        if rng.random() < 0.4:                      # volume change, J in [0.5, 2]
+            v = rng.uniform(-0.23, 0.23)
+            l = l + (onp.array([v, v, 0.0]) * 1.5 if plane else v)
+        l = onp.clip(l, -2.3, 2.3)
+
+        def Fof(sv):
+            return _rodrigues(axis, sv * theta) @ (Q * onp.exp(sv * l)) @ Q.T
+        jump = kind == "large_jump"
+    for k in range(1, nload + 1):
+        sv = 1.0 if jump else k / nload
+        out.append((Fof(sv) - onp.eye(3), _dt(rng, taus), "load"))
+    return out
+
+
 def make_history(rng, kind, form, taus, nload, nhold):
     """-> list of (H, dt, phase)."""
     H = onp.zeros((3, 3))
     out = []
     amp = float(loguniform(rng, 1e-3, 0.4))
     if kind == "tiny":
-        amp = float(loguniform(rng, 1e-8, 1e-5))
-    if kind in ("walk", "tiny"):
+        amp = float(loguniform(rng, 1e-10, 1e-5))
+    if kind in LARGE_KINDS:
+        out = _large_history(rng, kind, form, taus, nload)
+        H = out[-1][0]
+    if kind in LARGE_KINDS:
+        pass
+    elif kind in ("walk", "tiny"):
         for _ in range(nload):
             for _t in range(20):
                 dH = _unit(rng, form) * amp * float(loguniform(rng, 0.05, 1.0))
